@@ -7,7 +7,7 @@ import subprocess
 HERE = os.path.dirname(os.path.dirname(os.path.abspath(__file__)))
 
 CHECKS = {
- "C01": dict(cat="exploration", tech="runtime oracle: brute-force / forward-DP reference on every kernel call (interpreted, JIT, JIT+boundscheck)",
+ "C01": dict(cat="exploration", tech="runtime oracle: brute-force / forward-DP reference on every kernel call (interpreted, JIT, JIT+boundscheck) and on switching-cost sweeps through the relabelling function",
    text="Postcondition monitor on the real labelling kernel: every call's labels and reported cost are compared with a brute-force optimum (K^T<=60000) or an independent forward DP; random hostile tables x beta forms x layouts x three execution modes, plus the complete grid T<=3,K<=3 over {0,1,2}. Held = no discrepancy on the calls observed.",
    note="Trusts NumPy and the two reference solvers (cross-checked against each other on every brute-forced case). Not a proof over all tables."),
  "C02": dict(cat="exploration", tech="runtime certificate: epsilon-KKT + Toeplitz residual derived from the stopping rule, exit record via wrapped check_convergence",
@@ -31,9 +31,9 @@ CHECKS = {
  "C08": dict(cat="exploration", tech="runtime snapshot contract against an order-free sequential reference model",
    text="Input/output snapshots of every repopulation call (synthetic states: complete size-vector grids with all spread orderings; random large; repeated application; and every call inside traced runs) are checked against a sequential conservation model, incl. donor order, error on shortage and input immutability.",
    note="Spread ties leave donor order unconstrained; which points are drawn is not constrained."),
- "C09": dict(cat="exploration", tech="offline trace-specification checker over recorded per-phase model states, plus per-task KKT certificates",
+ "C09": dict(cat="exploration", tech="offline trace-specification checker over recorded per-phase model states (free-running and scripted-labelling runs), logical round budget, per-task KKT certificates",
    text="Phase wrappers record every model state handed between phases; the trace is checked against the round grammar, bound, fixed-point stopping rule, repopulation guard, result = last round, optimality of the returned labelling for the returned model, and each round's MRFs against that round's covariances.",
-   note="Observes at function boundaries of the real code; a refactoring that inlines the phases makes the check inconclusive, not green."),
+   note="Observes at function boundaries of the real code; a refactoring that inlines the phases makes the check inconclusive, not green. Scripted labellings replace only the labelling kernel's return value; everything else in the loop is the real code."),
  "C10": dict(cat="exploration", tech="runtime bitwise comparison with sliding_window_view reference over the complete shape grid",
    text="Complete grid T in [W,W+40], W<=12, N<=6 with hostile float payloads (NaN bit patterns, inf, -0.0, denormals), bitwise comparison via uint64 views; multi-series concatenation and split/pad round trips.",
    note="exhaustive over the stated shape grid; values are sampled."),
@@ -46,7 +46,7 @@ CHECKS = {
  "C13": dict(cat="exploration", tech="runtime class invariant + alias monitor + shadow-model history checker",
    text="Partition invariant on every state at every phase boundary, input-immutability per phase, an alias monitor that re-checks every earlier state at every later boundary, and random operation histories compared with a shadow model with the documented sharing semantics.",
    note="Scoring-phase cache fill is required to be coherent, not absent (see DESIGN)."),
- "C14": dict(cat="exploration", tech="differential execution across pool sizes / forced completion permutations / call histories, bitwise digests",
+ "C14": dict(cat="exploration", tech="differential execution across pool sizes / forced completion permutations / call histories (other shapes, same N*W other split, large NW, DEBUG logging, failed call), bitwise digests; entry-point A,B,C,A sequences",
    text="For fixed inputs and generator states the digest of the complete result is compared across num_processors, multiprocessing on/off, delay schedules that force observed completion permutations, and preceding calls; evidence lists the permutations observed.",
    note="Completion order is observed via apply_async callbacks; inconclusive if too few distinct permutations were seen."),
  "C15": dict(cat="exploration", tech="differential execution across interpreters: JIT / JIT+boundscheck / interpreted / Numba absent, thread counts 1..16",
@@ -64,7 +64,7 @@ CHECKS = {
  "C19": dict(cat="exploration", tech="byte snapshots and read-only buffers as write watch-points",
    text="Every argument is snapshotted before and compared after each call of the four entry points, returning or raising; the same calls are made with read-only arrays.",
    note=""),
- "C20": dict(cat="fault_enumeration", tech="fault injection at every (round, cluster) task and every phase; /proc child scan, ResourceWarning capture, digest of next call",
+ "C20": dict(cat="fault_enumeration", tech="fault injection at every (round, cluster) task and every phase incl. KeyboardInterrupt/SystemExit and failures before round 0; /proc child scan, ResourceWarning capture, digest of next call; logical hang guard on the pool's plumbing; complete donor-shortage grid",
    text="Every task index and every phase of the driven runs is faulted in turn in single- and multi-process pools; the exception class/message, absence of leftover children and warnings, and the digest of a subsequent clean call are checked.",
    note="Worker death is a recorded known finding exercised in the thorough tier."),
 }
